@@ -95,6 +95,15 @@ class Prop(PropBase):
             "A": [[complex(a).real, complex(a).imag] for a in A.astype(complex)],
             "B": [[complex(a).real, complex(a).imag] for a in B.astype(complex)],
         }
+        if case["dask"]:
+            # all conversions of one Dask-backed signal evaluated in ONE graph equal the results computed alone
+            try:
+                import dask
+                alone = [np.asarray(x.data) for x in (lin, circ, st, inten)]
+                joint = dask.compute(lin.data, circ.data, st.data, inten.data, scheduler="synchronous")
+                out["joint_same"] = bool(all(np.array_equal(a, b) for a, b in zip(alone, joint)))
+            except Exception as e:  # noqa
+                out["hist_err"] = err_name(e)
         # the conversions are functions of the CURRENT samples and basis label: repeat them on the same object after an
         # in-place change (exact: scaling by 2) and after relabelling the basis, and compare with a fresh object
         try:
@@ -163,6 +172,8 @@ class Prop(PropBase):
             return f"class / pol_type / labels / meta / container wrong on output #{code['meta'].index(False)}"
         if not code["keyerr"] or not code["comps_ok"]:
             return "Stokes component access by name is wrong"
+        if code.get("joint_same") is False:
+            return "conversions of one Dask-backed signal evaluated in one graph differ from the results computed alone"
         if code.get("hist_scale_ok") is False:
             return "to_stokes() called again after the samples were doubled in place is not 4x the first result (stale result)"
         if code.get("hist_label_ok") is False:
